@@ -351,6 +351,7 @@ def run_record(record, want_record=True, gen=None):
     # ---- schedules
     n_sched = gen["n"] if gen else len(record["schedules"])
     est = None
+    yields_done = {}  # pre-emption granularity (line set) -> yield points of a completed schedule of this run
     for si in range(n_sched):
         if viol:
             break
@@ -396,6 +397,8 @@ def run_record(record, want_record=True, gen=None):
                     log.append(["crash", si, run["crash"].split("(")[0], digest(sorted(os.listdir(run["out_dir"])))])
                 elif not run["ok"] and "task_fault_propagated" in run:
                     stats["probes"]["task_failure_propagated"] = stats["probes"].get("task_failure_propagated", 0) + 1
+                elif not run["ok"] and "abort" in run:
+                    stats["probes"]["schedule_stopped_at_the_yield_cap_undecided"] = stats["probes"].get("schedule_stopped_at_the_yield_cap_undecided", 0) + 1
                 elif not run["ok"]:
                     viol.append({"oracle": "H0_parallel_run_fails", "what": f"run under simulated schedule {si} failed: {run.get('exception') or run.get('abort')}", "detail": {"schedule": si}, "signature": dict(sig_base, oracle="H0_parallel_run_fails")})
                 else:
@@ -431,11 +434,21 @@ def run_record(record, want_record=True, gen=None):
             continue
         if not run["ok"]:
             if "abort" in run:
-                viol.append({"oracle": "I3_progress", "what": run["abort"], "detail": {"schedule": si}, "signature": dict(sig, oracle="I3_progress")})
+                # the absolute cap on yield points is a safety stop; it is a progress violation only when measured against
+                # this run's own work: an earlier, completed schedule with the same pre-emption granularity that needed
+                # less than a twentieth of the cap.  Otherwise the configuration is simply heavy and the schedule is skipped.
+                done = yields_done.get(sched.get("line_set", "none"))
+                if done is not None and sim.total_yields > 20 * max(done, 1):
+                    viol.append({"oracle": "I3_progress", "what": f"{run['abort']}; a completed schedule of the same run with the same pre-emption granularity needed {done}", "detail": {"schedule": si},
+                                 "signature": dict(sig, oracle="I3_progress")})
+                else:
+                    stats["probes"]["schedule_stopped_at_the_yield_cap_undecided"] = stats["probes"].get("schedule_stopped_at_the_yield_cap_undecided", 0) + 1
+                    log.append(["capped", si])
             else:
                 viol.append({"oracle": "H0_parallel_run_fails", "what": f"run under simulated schedule {si} failed while the serial run succeeded: {run['exception']}",
                              "detail": {"schedule": si, "trace": run.get("trace")}, "signature": dict(sig, oracle="H0_parallel_run_fails", exc=run["exception"].split(":")[0])})
             continue
+        yields_done[sched.get("line_set", "none")] = max(yields_done.get(sched.get("line_set", "none"), 0), sim.total_yields)
         log.append(["sched", si, digest(run["results"]), digest(run["files"]["digest_view"]), key])
         oracles.compare_runs(cfg, ref, run, si, viol, stats, sig)
         if sim.write_sets:
